@@ -414,7 +414,7 @@ def replay_edges(job):
                 rep.stats["distinct_nontrivial"] += 1
         elif what == "state":
             for kind in I.KINDS:
-                for v in VARIANTS:
+                for v in G["method_variants"]:
                     check_methods(rep, kind, v, item[1])
     return rep.dump()
 
@@ -552,6 +552,8 @@ def stage(run, scratch, name, cfg, totals, driftacc, tm, sample_rate, **tlc_kw):
         cache={(k, v): {} for k in I.KINDS for v in VARIANTS},
         snap={(k, v): {} for k in I.KINDS for v in VARIANTS},
         stats=defaultdict(int), sample_rate=sample_rate,
+        # quick: view-vs-fresh method comparison on the degenerate/gapped root only (SeqViewRead carries the oracle-based reads)
+        method_variants=(1,) if run.tier == "quick" else VARIANTS,
     )
     totals["spec_states_explored"] += len(states)
     totals["spec_states_with_chain"] += len(seen)
@@ -627,21 +629,33 @@ def check(run: Run):
     tm = {}
     with Scratch("C01") as scratch:
         rate = float(os.environ.get("VERIF_C01_SAMPLE", "0.02" if tier == "quick" else "0.01"))
-        stages = os.environ.get("VERIF_C01_STAGES", "exhaustive,read,deep").split(",")  # debugging aid
+        stages = os.environ.get("VERIF_C01_STAGES", "exhaustive,read,coll,deep").split(",")  # debugging aid
+        import concurrent.futures
+
+        import coll_C01
+        import read_C01
+
+        # the two small single-worker TLC runs proceed while the big model is explored and replayed
+        pool = concurrent.futures.ThreadPoolExecutor(2)
+        fut_read = pool.submit(read_C01.tlc_read, scratch, tier) if "read" in stages else None
+        fut_coll = pool.submit(coll_C01.tlc_coll, scratch, tier) if "coll" in stages else None
         if "exhaustive" in stages:
             stage(run, scratch, "exhaustive", f"MC_SeqView_{tier}.cfg", totals, driftacc, tm, rate)
-        if "read" in stages:
-            import read_C01
-
-            read_C01.stage_read(run, scratch, tier, totals, tm, warm=None if "classname" in G else warmup)
+        if "classname" not in G:
+            warmup()
+        if fut_read is not None:
+            read_C01.stage_read(run, scratch, tier, totals, tm, pre=fut_read.result())
+        if fut_coll is not None:
+            coll_C01.stage_coll(run, scratch, tier, totals, tm, pre=fut_coll.result())
+        pool.shutdown()
         if tier == "thorough" and "deep" in stages:
             # longer roots (5-10 residues, offsets 0 and 7): seeded random walks of the same model through views that
             # still display >= 2 residues; TLC evaluates (and emits) the full fan-out of every view it visits
             stage(run, scratch, "deep", "MC_SeqView_deep.cfg", totals, driftacc, tm, rate,
                   simulate="num=8", depth=6, seed=run.seed + 1)
-    run.cov["traces_validated_against_impl"] = totals["view_level"] + totals["seq_level"]
-    run.cov["evaluations"] = totals["view_level"] + totals["seq_level"] + 2 * totals["method_calls"]
-    run.cov["distinct_nontrivial"] = totals["distinct_nontrivial"]
+    run.cov["traces_validated_against_impl"] = totals["view_level"] + totals["seq_level"] + totals["read_answers"] + totals["coll_answers"]
+    run.cov["evaluations"] = run.cov["traces_validated_against_impl"] + 2 * totals["method_calls"]
+    run.cov["distinct_nontrivial"] = totals["distinct_nontrivial"] + totals["read_views"] + totals["coll_states"]
     run.cov["exhaustive"] = True
     run.cov["rule"] = (
         "TLC enumerates every view state reachable from roots of length 0..MaxL (closed under slices with start/stop in "
@@ -650,7 +664,11 @@ def check(run: Run):
         "Slice/Index/Rc transition is applied to the real view record of old/new/collection-backed sequences x 2 seeded root "
         "strings (view_level); every distinct (state, successor, action, stride-sign) edge, every Copy/Conv transition and a "
         "seeded sample of the rest go through the public Sequence API (seq_level). distinct_nontrivial = distinct such edges "
-        "whose source view is non-empty."
+        "whose source view is non-empty.  SeqViewRead: every view (slices + rc, two call chains each) of concrete IUPAC roots "
+        "(quick 1 root of 7 residues, thorough 4 roots, offsets 0 and 5) answers ~45 reading methods, translation and "
+        "comparisons against a second sequence object as the plain-string model says (read_answers).  SeqViewColl: every "
+        "reachable collection state (take_seqs / rename_seqs / rc / degap over members that are views of one parent) read back "
+        "through the collection API (coll_answers)."
     )
     run.note("replay", {k: v for k, v in totals.items() if not k.startswith(("spec_", "emitted"))})
     run.note("spec_states_explored", totals["spec_states_explored"])
@@ -664,6 +682,9 @@ def check(run: Run):
         "exhaustive for root lengths <= MaxL (quick 3, thorough 4); lengths 5-10 only along seeded simulated walks (thorough); longer sequences are not covered",
         "Sequence.__getitem__ is exercised for one argument triple per distinct (state, successor, stride sign) plus a seeded sample; all argument triples are exercised on the view record it delegates to",
         "method results are compared after projection (sequences -> (moltype, string, name); class names in repr/html and version/offset keys dropped); random, plotting, annotation and serialisation methods are excluded",
+        "SeqViewRead follows the method docstrings: '?' is both degenerate and a gap; count_gaps may or may not count '?' (old and new classes document it differently); "
+        "first_gap / gap_maps exist on old-style, __array__ / __bytes__ / to_phylip on new-style sequences only; get_translation outcomes are GeneticCode.tla's (C12), "
+        "and old-style include_stop=True with trim_stop=True is left to C12's known finding",
         "collection-backed sequences exist only for offset 0 and non-empty roots; states behind their copy() are not built (copy returns the receiver's own record)",
         "replay counters named unreachable_or_unsupported count (kind, root variant) pairs for which a state cannot be instantiated (collection-backed + offset, states behind a failing call)",
     ]
